@@ -27,6 +27,8 @@ inductive DCall
   | getState (h : Handle)
   | setDescrBody (h : Handle) (b : Nat)
   | setStateBody (h : Handle) (b : Nat)
+  | writeEntity (d : Descr) (single : Option (Nat × Nat)) (multi : Option (List CState))
+      -- write_entity(entity): entity.descriptor = d; Entity: state with (StateVersion, body); MultiStateEntity: its states
 deriving Repr, DecidableEq
 
 /-- `actual_descriptor`: the transaction's new descriptor, else the table's -/
@@ -105,6 +107,42 @@ def dCall (t : Tables) (tx : DTx) : DCall → Except Err DTx
     match dictGet tx.sItems h with
     | some it => .ok { tx with sItems := dictSet tx.sItems h { it with new := { it.new with body := b } } }
     | none => .error .keyError
+  | .writeEntity d0 single multi =>
+    if (dictGet tx.descr d0.handle).isSome then .error .valueError else
+    let orig := findD t d0.handle
+    let ver := match orig with
+      | some o => o.ver + 1
+      | none => match savedGet t.dSaved d0.handle with
+        | some v => v + 1
+        | none => d0.ver
+    let d := { d0 with ver := ver }
+    let tx1 := { tx with descr := dictSet tx.descr d.handle ⟨orig, some d⟩ }
+    match multi with
+    | some cs =>
+      let olds := ctxOf t d.handle
+      let put := fun (tx : DTx) (c : CState) =>
+        let old := olds.find? (fun o => o.h == c.h)
+        let sv := match old with
+          | some o => o.sv + 1
+          | none => match savedGet t.cSaved c.h with
+            | some v => v + 1
+            | none => c.sv
+        { tx with cItems := dictSet tx.cItems c.h ⟨old, some { c with dv := ver, sv := sv }⟩ }
+      let tx2 := cs.foldl put tx1
+      let gone := olds.filter (fun o => !(cs.any (fun c => c.h == o.h)))
+      .ok (gone.foldl (fun tx o => { tx with cItems := dictSet tx.cItems o.h ⟨some o, none⟩ }) tx2)
+    | none =>
+      match single with
+      | none => .ok tx1
+      | some (sv0, b) =>
+        if d.kind == .context then .error .notImplemented else
+        let old := findS t d.handle
+        let sv := match old with
+          | some o => o.sv + 1
+          | none => match savedGet t.sSaved d.handle with
+            | some v => v + 1
+            | none => sv0
+        .ok { tx1 with sItems := dictSet tx1.sItems d.handle ⟨old, ⟨d.handle, ver, sv, d.kind, b⟩⟩ }
 
 /-! ### commit -/
 
@@ -118,10 +156,10 @@ deriving Repr
 def updCorresponding (c : DCommit) (d : Descr) : DCommit :=
   if d.kind == .context then
     let step := fun (tx : DTx) (cs : CState) =>
-      let (old, new) := match dictGet tx.cItems cs.h with
-        | some ⟨o, some n⟩ => (o, n)
-        | _ => (some cs, cs)
-      { tx with cItems := dictSet tx.cItems cs.h ⟨old, some { new with sv := new.sv + 1, dv := d.ver }⟩ }
+      match dictGet tx.cItems cs.h with
+      | some ⟨_, none⟩ => tx      -- deleted in this transaction (write_entity without this state)
+      | some ⟨o, some n⟩ => { tx with cItems := dictSet tx.cItems cs.h ⟨o, some { n with sv := n.sv + 1, dv := d.ver }⟩ }
+      | none => { tx with cItems := dictSet tx.cItems cs.h ⟨some cs, some { cs with sv := cs.sv + 1, dv := d.ver }⟩ }
     { c with tx := (ctxOf c.t d.handle).foldl step c.tx }
   else
     match dictGet c.tx.sItems d.handle with
